@@ -186,3 +186,74 @@ func registerMapsPkg(vm *VM) {
 		return clone(vm, fr, a)
 	}
 }
+
+// strings.Builder: the accumulated text is kept as a string value in the builder's buf
+// slot (the real implementation appends to a byte slice and converts it with unsafe).
+func registerStringsBuilder(vm *VM) {
+	I := vm.intrinsics
+	cur := func(vm *VM, recv Value) (*Value, Struct, Value) {
+		p, ok := recv.(*Value)
+		if !ok || p == nil {
+			vm.goPanic("runtime error: invalid memory address or nil pointer dereference")
+		}
+		st, ok := (*p).(Struct)
+		if !ok || len(st) < 2 {
+			vmErr("strings.Builder: unexpected representation")
+		}
+		var text Value = ""
+		switch t := st[1].(type) {
+		case string, *SymStr:
+			text = t
+		}
+		return p, st, text
+	}
+	set := func(vm *VM, st Struct, v Value) { vm.store(&st[1], v) }
+	I["(*strings.Builder).WriteString"] = func(vm *VM, _ *frame, a []Value) Value {
+		_, st, text := cur(vm, a[0])
+		set(vm, st, concatStr(text, a[1]))
+		return Tuple{int64(strLenOrZero(a[1])), Iface{}}
+	}
+	I["(*strings.Builder).WriteByte"] = func(vm *VM, _ *frame, a []Value) Value {
+		_, st, text := cur(vm, a[0])
+		set(vm, st, concatStr(text, strFromBytes([]Value{a[1]})))
+		return Iface{}
+	}
+	I["(*strings.Builder).WriteRune"] = func(vm *VM, _ *frame, a []Value) Value {
+		_, st, text := cur(vm, a[0])
+		r, ok := a[1].(int64)
+		if !ok {
+			vmErr("strings.Builder.WriteRune with a symbolic rune")
+		}
+		s := string(rune(r))
+		set(vm, st, concatStr(text, s))
+		return Tuple{int64(len(s)), Iface{}}
+	}
+	I["(*strings.Builder).Write"] = func(vm *VM, _ *frame, a []Value) Value {
+		_, st, text := cur(vm, a[0])
+		bs, ok := a[1].(Slice)
+		if !ok {
+			vmErr("strings.Builder.Write of %T", a[1])
+		}
+		set(vm, st, concatStr(text, strFromBytes([]Value(bs))))
+		return Tuple{int64(len(bs)), Iface{}}
+	}
+	I["(*strings.Builder).String"] = func(vm *VM, _ *frame, a []Value) Value {
+		_, _, text := cur(vm, a[0])
+		return text
+	}
+	I["(*strings.Builder).Len"] = func(vm *VM, _ *frame, a []Value) Value {
+		_, _, text := cur(vm, a[0])
+		return int64(strLen(text))
+	}
+	I["(*strings.Builder).Grow"] = func(vm *VM, _ *frame, a []Value) Value { return nil }
+	I["(*strings.Builder).Reset"] = func(vm *VM, _ *frame, a []Value) Value {
+		_, st, _ := cur(vm, a[0])
+		set(vm, st, "")
+		return nil
+	}
+}
+
+func strLenOrZero(v Value) int {
+	defer func() { recover() }()
+	return strLen(v)
+}
